@@ -426,8 +426,36 @@ impl Property for C30 {
                     chunk /= 2;
                 }
             }
-            best.threads.retain(|t| !t.is_empty());
-            if best.threads.is_empty() {
+            // drop threads that have become empty: thread ids shift, so the schedule is renumbered
+            // and the result re-recorded; kept only if the violation is still there
+            if best.threads.iter().any(|t| t.is_empty()) && best.threads.iter().any(|t| !t.is_empty()) {
+                let mut map = vec![None; best.threads.len()];
+                let mut next = 0usize;
+                for (i, t) in best.threads.iter().enumerate() {
+                    if !t.is_empty() {
+                        map[i] = Some(next);
+                        next += 1;
+                    }
+                }
+                let mut c = best.clone();
+                c.threads.retain(|t| !t.is_empty());
+                c.switches = best
+                    .switches
+                    .iter()
+                    .filter_map(|(step, t)| map.get(*t).copied().flatten().map(|n| (*step, n)))
+                    .collect();
+                if let Some(c2) = rerecord(&c, &mut steps) {
+                    best = c2;
+                } else {
+                    // the empty thread's mere existence shifts the schedule: try a fresh recording
+                    c.switches.clear();
+                    c.strategy = Strategy::Random;
+                    if let Some(c2) = rerecord(&c, &mut steps) {
+                        best = c2;
+                    }
+                }
+            }
+            if best.threads.iter().all(|t| t.is_empty()) {
                 break;
             }
             // replace schedule choices by "stay on the current thread"
